@@ -35,7 +35,12 @@ func applyKnobs(k map[string]int) {
 // runStream executes the documented streaming recipe over a SimReader:
 // NextBlock until the first error, ReferenceMap.Extract per block as it is
 // received, 1-4 further calls, then InlineParser.Rewrite of every block.
-func runStream(doc []byte, rs *ReaderScn) *streamObs {
+func runStream(doc []byte, rs *ReaderScn) *streamObs { return runStreamWith(doc, rs, nil) }
+
+// runStreamWith: sharedIP != nil replaces the per-stream InlineParser (whose
+// matcher is the stream's own reference map) by a caller-held one that
+// several goroutines use at once.
+func runStreamWith(doc []byte, rs *ReaderScn, sharedIP *commonmark.InlineParser) *streamObs {
 	seq := 0
 	obs := &streamObs{Refs: make(commonmark.ReferenceMap)}
 	rd := newSimReader(doc, rs, &seq)
@@ -84,6 +89,9 @@ func runStream(doc []byte, rs *ReaderScn) *streamObs {
 		}
 	}
 	ip := &commonmark.InlineParser{ReferenceMatcher: obs.Refs}
+	if sharedIP != nil {
+		ip = sharedIP
+	}
 	for _, b := range obs.Blocks {
 		ip.Rewrite(b)
 	}
